@@ -40,12 +40,12 @@ def fresh_tables(M, patch=None):
 
 
 def run_output(M, lists, json=False, batch=False, verbose=False, level='info', client=False, sw='OpenSSH_8.0', host_keys=None, dh=None,
-               patch=None, pkm=None, header=(), notes='', print_target=False, host='host', port=22, protocol=(2, 0), comments=None, c2s=None):
+               patch=None, pkm=None, header=(), notes='', print_target=False, host='host', port=22, protocol=(2, 0), comments=None, c2s=None, out_factory=None, valid_ascii=True):
     """real output(); returns dict(ret, lines, doc)"""
     fresh_tables(M, patch)
     aconf = M.auditconf.AuditConf(host, port)
     aconf.json = json
-    out = M.outputbuffer.OutputBuffer()
+    out = (out_factory or M.outputbuffer.OutputBuffer)()
     out.use_colors = False
     out.batch, out.verbose, out.level = batch, verbose, level
     if json:
@@ -57,7 +57,7 @@ def run_output(M, lists, json=False, batch=False, verbose=False, level='info', c
         if c2s is None:
             c2s = {'enc': ['decoy-c2s-cipher'], 'mac': ['decoy-c2s-mac', 'hmac-md5'], 'comp': ['decoy-c2s-compression']}
         kex = make_kex(M, L, host_keys=host_keys, dh=dh, c2s=c2s)
-    banner = M.banner.Banner(protocol, sw, comments, True) if sw is not None else None
+    banner = M.banner.Banner(protocol, sw, comments, valid_ascii) if sw is not None else None
     cj = CaptureJson()
     with AE.patched(M.ssh_audit, json=cj):
         r = guarded(M.ssh_audit.output, out, aconf, banner, list(header), '1.2.3.4' if client else None, kex, pkm, print_target, notes)
